@@ -117,7 +117,11 @@ func unlockBetweenIP(p *core.Prog, root *ssa.Function, a, b ssa.Instruction, suf
 		if a.Parent() == b.Parent() {
 			return unlockBetween(a.Parent(), a, b, a.Parent().Params[0].Name()+suffix)
 		}
-		return true
+		// b further down, in a helper of the helper a sits in: the same question with that helper as the root
+		if len(a.Parent().Params) == 0 || core.SiteChain(p, a.Parent(), b) == nil {
+			return true
+		}
+		root = a.Parent()
 	}
 	chain := core.SiteChain(p, root, b)
 	if chain == nil {
